@@ -271,7 +271,7 @@ func runSeq(run *hx.Run, kind string, ops []string, seed uint64, alterAll bool, 
 	return strings.Join(outs, "|")
 }
 
-// alterProof: every single-byte alteration (quick tier: a fixed set of 6 alterations per byte, all 255 for sampled
+// alterProof: every single-byte alteration (quick tier: a fixed set of 4 alterations per byte, all 255 for sampled
 // proofs; thorough: all 255) of every element, plus truncation, extension and removal of elements, must make
 // VerifyProof fail or return the value the content holds.
 func alterProof(run *hx.Run, input string, root common.Hash, key []byte, elems [][]byte, want string, rng *hx.Rng, all bool, st *seqStats) {
@@ -295,7 +295,7 @@ func alterProof(run *hx.Run, input string, root common.Hash, key []byte, elems [
 					vals = append(vals, e[pos]^byte(d))
 				}
 			} else {
-				vals = []byte{e[pos] ^ 0x01, e[pos] ^ 0x80, e[pos] + 1, e[pos] - 1, e[pos] ^ 0x10, byte(rng.U64())}
+				vals = []byte{e[pos] ^ 0x01, e[pos] ^ 0x80, e[pos] + 1, byte(rng.U64())}
 			}
 			for _, nv := range vals {
 				if nv == e[pos] {
@@ -483,12 +483,12 @@ func main() {
 	// 1. random histories
 	nSeq, maxOps := 1500, 80
 	if run.Thorough() {
-		nSeq = 60000
+		nSeq = 30000
 	}
 	r1 := rng.Fork(1)
 	for i := 0; i < nSeq; i++ {
 		kind, ops := genSeq(r1, maxOps)
-		alterAll := run.Thorough() && i%20 == 0 || !run.Thorough() && i%150 == 0
+		alterAll := run.Thorough() && i%40 == 0 || !run.Thorough() && i%250 == 0
 		doSeq(kind, ops, r1.U64(), alterAll)
 	}
 
